@@ -295,6 +295,13 @@ extern PPL_TLS abandon_type abandon_expensive_computations;
 void
 maybe_abandon();
 
+#ifdef PPL_VERIF
+// Verification seam (off unless PPL_VERIF is defined): called first thing
+// by maybe_abandon(), so that a simulator can count checkpoints, advance
+// its clock or raise abandon_expensive_computations at a chosen checkpoint.
+extern void (*verif_abandon_hook)();
+#endif
+
 //! A tag class.
 /*! \ingroup PPL_CXX_interface
   Tag class to distinguish those constructors that recycle the data
